@@ -27,7 +27,15 @@ import (
 
 type Rand struct{ s uint64 }
 
-func NewRand(seed uint64) *Rand { return &Rand{s: seed*0x9E3779B97F4A7C15 + 0x1234567} }
+// NewRand scrambles the seed through the splitmix finaliser first, so that consecutive seeds give
+// unrelated streams (seed*gamma alone would give the same stream shifted by one step).
+func NewRand(seed uint64) *Rand {
+	z := seed + 0x1234567
+	z = (z ^ (z >> 30)) * 0xBF58476D1CE4E5B9
+	z = (z ^ (z >> 27)) * 0x94D049BB133111EB
+	z ^= z >> 31
+	return &Rand{s: z ^ (seed * 0xD6E8FEB86659FD93)}
+}
 
 func (r *Rand) U64() uint64 {
 	r.s += 0x9E3779B97F4A7C15
